@@ -9,6 +9,7 @@ import (
 	"fmt"
 	"hash/fnv"
 	"math/rand"
+	"runtime"
 	"strings"
 )
 
@@ -33,6 +34,8 @@ type jobResult struct {
 	AbandonNote string         `json:"abandon_note,omitempty"`
 	Snapshots   int            `json:"snapshots"`
 	Blocked     int            `json:"blocked_steps"` // executions in which some goroutine was observed blocked
+	Parallel    int            `json:"parallel"`
+	Overlap     int            `json:"overlap"` // parallel runs in which operations of two worker goroutines overlapped in time
 	Crashed     int            `json:"crashed"`
 	Stuck       int            `json:"stuck"`
 	MaxDepth    int            `json:"max_depth"`
@@ -101,13 +104,16 @@ func (e *explorer) after(x *execution) {
 		e.badRuns++
 		return
 	}
+	if x.par {
+		r.Parallel++
+	}
 	h := fnv.New64a()
 	for _, t := range x.trace {
 		h.Write([]byte(t))
 		h.Write([]byte{0})
 	}
 	sig := h.Sum64()
-	if _, dup := e.seen[sig]; !dup {
+	if _, dup := e.seen[sig]; !dup && !x.par {
 		e.seen[sig] = struct{}{}
 		r.Distinct++
 		if x.inside {
@@ -125,6 +131,9 @@ func (e *explorer) after(x *execution) {
 		e.badRuns++
 	}
 	hist := x.history()
+	if x.par && overlapping(hist) {
+		r.Overlap++
+	}
 	hr := checkHistory(e.j.Cfg, hist, x.stuck, len(hist) <= 24)
 	r.Lin[hr.Linearizable]++
 	if r.Sample == "" && x.inside && len(hr.Viol) == 0 {
@@ -153,11 +162,15 @@ func replayText(j job, x *execution, h []opRec, v viol) string {
 	fmt.Fprintf(&sb, "# C09 layer 1 (controlled scheduler over the Go API of std/channel.Channel)\n")
 	fmt.Fprintf(&sb, "# violation: %s\n# %s\n", v.Key, v.What)
 	fmt.Fprintf(&sb, "# configuration: %s  (producers x sends, consumers x receives, closers x closes, capacity); producer Pi sends (i+1)*1000000+n\n", j.Cfg)
-	fmt.Fprintf(&sb, "# schedule (goroutine released @ the point it was parked at; 'op' = before its next operation):\n")
-	for _, t := range x.trace {
-		fmt.Fprintf(&sb, "release %s\n", t)
+	if x.par {
+		fmt.Fprintf(&sb, "# real-parallel run (not deterministic): all goroutines released at once behind a barrier, GOMAXPROCS=%d;\n# when everybody has finished or is blocked in the channel code (stack snapshot), the harness client Z closes the channel and receives until null\n", x.procs)
+	} else {
+		fmt.Fprintf(&sb, "# schedule (goroutine released @ the point it was parked at; 'op' = before its next operation):\n")
+		for _, t := range x.trace {
+			fmt.Fprintf(&sb, "release %s\n", t)
+		}
+		fmt.Fprintf(&sb, "# then: all goroutines run freely, the harness client Z closes the channel and receives until null\n")
 	}
-	fmt.Fprintf(&sb, "# then: all goroutines run freely, the harness client Z closes the channel and receives until null\n")
 	fmt.Fprintf(&sb, "# recorded history (call@/ret@ = global sequence numbers):\n")
 	for _, o := range h {
 		fmt.Fprintf(&sb, "#   %s\n", o.String(j.Cfg))
@@ -165,6 +178,11 @@ func replayText(j job, x *execution, h []opRec, v viol) string {
 	var ch []int
 	for _, d := range x.decisions {
 		ch = append(ch, d.Enabled[d.Chosen])
+	}
+	if x.par {
+		b, _ := json.Marshal(map[string]any{"cfg": j.Cfg, "reps": j.Max})
+		fmt.Fprintf(&sb, "# re-execute (repeats until it shows again): .build/c09 replay <this file>\npar %s\n", b)
+		return sb.String()
 	}
 	b, _ := json.Marshal(map[string]any{"cfg": j.Cfg, "choices": ch})
 	fmt.Fprintf(&sb, "# re-execute: .build/c09 replay <this file>\ncase %s\n", b)
@@ -187,6 +205,8 @@ func runJob(j job) jobResult {
 	switch j.Mode {
 	case "rand":
 		e.random()
+	case "par":
+		e.parallel()
 	default:
 		e.dfs()
 	}
@@ -283,6 +303,23 @@ func (e *explorer) random() {
 	}
 }
 
+// parallel repeats the configuration with real parallelism (all goroutines released at
+// once), a quarter of the repetitions at each of GOMAXPROCS 2, 4, 8, 16.
+func (e *explorer) parallel() {
+	j := e.j
+	procs := []int{2, 4, 8, 16}
+	defer runtime.GOMAXPROCS(runtime.GOMAXPROCS(0))
+	for pi, p := range procs {
+		runtime.GOMAXPROCS(p)
+		for n := pi * j.Max / len(procs); n < (pi+1)*j.Max/len(procs); n++ {
+			e.after(parExecute(j.Cfg, p))
+			if e.tooBroken() {
+				return
+			}
+		}
+	}
+}
+
 // replayChoices re-executes a recorded choice sequence.
 func replayChoices(cfg config, choices []int) (*execution, bool) {
 	exact := true
@@ -296,4 +333,22 @@ func replayChoices(cfg config, choices []int) (*execution, bool) {
 		return 0
 	})
 	return x, exact
+}
+
+// overlapping reports whether operations of two different worker goroutines overlapped.
+func overlapping(h []opRec) bool {
+	for i, a := range h {
+		if a.G < 0 {
+			continue
+		}
+		for _, b := range h[i+1:] {
+			if b.G < 0 || b.G == a.G {
+				continue
+			}
+			if a.Ret == 0 || b.Call < a.Ret {
+				return true
+			}
+		}
+	}
+	return false
 }
